@@ -48,6 +48,15 @@ def cases(tier, seed):
     for est in (["turnout"], ["dem"], ["turnout", "dem"]):
         for pm in ("nonparametric", "gaussian"):
             out.append({"kind": "historical", "estimands": est, "pm": pm, "seed": seed})
+    # gaussian, groups that mix own calibration models and fallbacks (structures of C15): the outstanding unit of one
+    # county is perturbed, every other county / the other state must not move
+    import itertools
+
+    for pat in (["A", "A", "B"], ["A", "A", "A"]):
+        for cs in itertools.product([0, 9, 10], repeat=3):
+            if tier == "quick" and len(set(cs)) == 1:
+                continue
+            out.append({"kind": "gstruct", "pattern": pat, "counts": list(cs), "outstanding": [True, True, True], "seed": seed})
     return out
 
 
@@ -100,6 +109,24 @@ def _pair_case(case, cov, viol):
         probe["pev"] = 60.0
     units.append(probe)
     units.append(E.make_probe(case["seed"], 1, "nonrep0", "pop1", weights=w))
+    return _perturb_and_compare(case, cov, viol, units, probe, cfg, st, ("postal_code", "county_fips", "county_classification"))
+
+
+def _gstruct_case(case, cov, viol):
+    from . import c15
+
+    units, groups, cal_pos, train = c15.build(case)
+    outs = [u for u in units if u["id"].startswith("v")]
+    for u in outs:  # every outstanding unit has a sizeable partial count, so aggregate floors can bind
+        u["pev"] = 40.0
+        u["r_dem"], u["r_gop"], u["r_turnout"] = 2 * u["b_dem"], 2 * u["b_gop"], 2 * u["b_turnout"]
+    probe = outs[0]
+    cfg = E.make_cfg(pi_method="gaussian", estimands=["turnout"], alphas=[0.7, 0.9], aggregates=["postal_code", "county_fips", "unit"], features=[])
+    return _perturb_and_compare(dict(case, outlier=False), cov, viol, units, probe, cfg, "nonrep_partial:mixed-gaussian-models", ("postal_code", "county_fips"))
+
+
+def _perturb_and_compare(case, cov, viol, units, probe, cfg, st, levels):
+    pm = cfg["pi_method"]
     base = E.run_estimates(units, cfg)
     if "error" in base:
         raise RuntimeError(f"base run failed {base['error']}")
@@ -132,7 +159,7 @@ def _pair_case(case, cov, viol):
                 viol(f"{kind}:{pm}:{st}{':outlier' if case['outlier'] else ''}", f"{ctx}: unit {k[0]} changed although only {probe['id']} ({st}) was perturbed: {diff}")
                 break
         own_a, own_b = ua[(probe["id"],)], ub[(probe["id"],)]
-        for level in ("postal_code", "county_fips", "county_classification"):
+        for level in levels:
             tname = R.LEVEL_TABLE[level]
             cols = R.key_columns(level, "G")
             ra, rb = _rows(base["ok"][tname], cols), _rows(pert["ok"][tname], cols)
@@ -244,6 +271,8 @@ def evaluate(case):
 
     if case["kind"] == "pair":
         runs, nontriv = _pair_case(case, cov, viol)
+    elif case["kind"] == "gstruct":
+        runs, nontriv = _gstruct_case(case, cov, viol)
     else:
         runs, nontriv = _historical_case(case, cov, viol)
     return {"violations": V, "cov": dict(cov), "outcome": sha([v["sig"] for v in V] + [runs]), "nontrivial": nontriv, "transitions": runs}
